@@ -28,6 +28,8 @@ pub const FAMILIES: &[(&str, u64)] = &[
     ("hostile", 1),
     ("lazy-soft", 2),
     ("medium-soft", 2),
+    ("union-conf", 6),
+    ("union-conf-hints", 4),
 ];
 
 impl Monitor for C05 {
@@ -77,6 +79,18 @@ impl Monitor for C05 {
                 ctx.violation("h1-assignment-implied-without-a-unit-reason", format!("run {k} ({:?}): {v}", opts.mode));
             }
             ctx.rep.add("h1:trail-entries-checked", d.trail.len() as u64);
+            // anchor "positive literals are only ever implied through Requires and learnt clauses":
+            // a learnt clause that says more than the clauses it was derived from is where an
+            // unneeded install comes from, long before (and far more often than) one surfaces in a
+            // solution. Every learnt clause of a hard-only problem must be derivable by unit
+            // propagation from the clauses allocated before it (clauses learnt while trying a soft
+            // requirement may legitimately lean on decisions of earlier runs and are not judged).
+            if c.p.soft.is_empty() && d.clauses.iter().any(|c| matches!(c.kind, resolvo::verif::VerifKind::Learnt)) {
+                match crate::hooks::rup_check(&d, false) {
+                    Ok(st) => ctx.rep.add("rup:learnt-clauses-checked", st.learnt_checked),
+                    Err(e) => ctx.violation("h1-rup-failed", format!("run {k} ({:?}): {e}", opts.mode)),
+                }
+            }
             let hs = hook_stats(&sess);
             if (hs.conflicts >= 1 || hs.restarts >= 1) && sol.len() >= 3 {
                 ctx.rep.nontrivial.insert(h);
